@@ -102,6 +102,7 @@ func c20All(thorough bool, rng *rand.Rand) []c20Scenario {
 	for _, c := range []string{"deploy-ok", "deploy-unhealthy", "deploy-conflict", "deploy-bad-target", "remove-ok", "remove-unknown", "pause-ok", "pause-unknown", "stop-ok", "stop-unknown",
 		"resume-ok", "resume-unknown", "rollout-deploy-ok", "rollout-deploy-unknown", "rollout-deploy-unhealthy", "rollout-set-ok", "rollout-set-no-targets", "rollout-set-unknown", "rollout-stop-ok", "rollout-stop-unknown", "list-ok",
 		"deploy-slow-drain-ok", "rollout-deploy-slow-drain-ok",
+		"tls-host-list-with-empty-element:app.example,", "tls-host-list-with-empty-element:,app.example", "tls-host-list-with-empty-element:,",
 		"down-deploy", "down-remove", "down-pause", "down-stop", "down-resume", "down-list", "down-rollout-deploy", "down-rollout-set", "down-rollout-stop"} {
 		out = append(out, c20Scenario{Part: "exit-code", Case: c})
 	}
@@ -398,6 +399,24 @@ func c20ExitCode(t *testing.T, run *Run, bin string, sc c20Scenario) {
 			run.Inconclusive("base deploy failed: %s", out)
 			return
 		}
+	}
+	if hosts, ok := strings.CutPrefix(sc.Case, "tls-host-list-with-empty-element:"); ok {
+		// "TLS without a host" for one entry of a host list: an empty element binds the service to no
+		// host. Either the command refuses, or what it deploys has no such binding: a TLS service
+		// must not end up on the no-host (wildcard) binding.
+		args := []string{"deploy", "web", "--target", ga2, "--tls", "--host", hosts}
+		out, code := u.CLI(args...)
+		if code == 0 {
+			rows, lout, _ := u.ListRows()
+			for _, r := range rows {
+				if len(r) >= 2 && r[0] == "web" && (r[1] == "*" || strings.HasPrefix(r[1], ",") || strings.HasSuffix(r[1], ",") || strings.Contains(r[1], ",,")) {
+					fail("tls-without-host-accepted:"+hosts, "`%s` exited 0 and the service is listed with host %q (TLS on a binding without a host): %s / %s", strings.Join(args, " "), r[1], trunc(out, 80), trunc(lout, 200))
+					return
+				}
+			}
+		}
+		run.Class("exit|tls-host-list|refused=" + fmt.Sprint(code != 0))
+		return
 	}
 	dead := "127.0.0.1:" + fmt.Sprint(freePort())
 	var args []string
